@@ -241,9 +241,9 @@ func freshBase(a FieldAccess) bool {
 }
 
 // returnsFresh: every return of g yields (the address of) an object g allocated itself, or what another such function
-// returned; g is an unexported-or-exported module function, not a method (a method could return part of its receiver).
+// returned (a method that returns part of its receiver returns a field address or a loaded value, not an allocation).
 func (p *Prog) returnsFresh(g *ssa.Function, depth int) bool {
-	if g == nil || g.Blocks == nil || !p.InModule(g) || g.Signature.Recv() != nil || depth < 0 {
+	if g == nil || g.Blocks == nil || !p.InModule(g) || depth < 0 {
 		return false
 	}
 	if p.freshFn == nil {
